@@ -187,7 +187,7 @@ def make_screen(W, spec):
             if spec.get("hidden"):
                 # hidden (password) input: the getpass function is replaced through the public password_func; it prints the prompt and reads from the gated console
                 s.hide_user_input = True
-                s.password_func = lambda prompt: (sys.stdout.write(prompt), sys.stdout.flush(), fake_input())[2]
+                s.password_func = lambda prompt: (sys.stdout.write(prompt), sys.stdout.flush(), xlog(("hidden-read",)), fake_input())[3]
             if spec.get("answer", "noattr") != "noattr": s.answer = spec["answer"]
         def __str__(s): return spec["name"]
         def _take(s, cb):
@@ -269,11 +269,20 @@ def run_real(case, loopkind="main"):
             LOG.append(("h<", hid))
         return f
     funcs = {}; W.funcs = funcs; W.mkh = mkh; W.late = {h["hid"]: h for h in case.get("handlers", []) if h.get("late")}
+    class _Receiver:
+        """an application object whose bound method is the handler; nothing but the registration refers to it"""
+        def __init__(self, f): self.f = f
+        def on_signal(self, sig, data): self.f(sig, data)
+    hid_count = {}
+    for h in case.get("handlers", []): hid_count[h["hid"]] = hid_count.get(h["hid"], 0) + 1
     for h in case.get("handlers", []):
         if h.get("late"): continue          # registered by a reg_handler action
         # two entries with the same handler id register the SAME callback object again (same class, same data): a signal then reaches it twice
         f = funcs.setdefault(h["hid"], mkh(h))
+        if h["hid"] % 2 == 1 and hid_count[h["hid"]] == 1:
+            f = _Receiver(f).on_signal          # every other handler is a bound method of an object the application does not keep
         loop.register_signal_handler(W.cls(h["cls"]), f, h.get("data"))
+    import gc; gc.collect()
     if case.get("exc_handler"):
         loop.register_signal_handler(ExceptionSignal, lambda s, d: LOG.append(("EXC-handled",)))
     if case.get("quit_cb") is not None: loop.set_quit_callback(lambda d: LOG.append(("quitcb", d)), case["quit_cb"])
